@@ -596,15 +596,15 @@ C08Echo(M, p, q) ==
             \cup (IF ~a.null THEN C08Echo(SubOf(F), a, b) ELSE {})
     : i \in DOMAIN M.fields }
 
-\* ctx: [M, plan, back (plan object after CopyTo), dg1, dg2, pn]
+\* ctx: [M, obj (the struct decoded from the plan), plan, back (plan object after CopyTo), dg1, dg2, pn]
 C08To(ctx) ==
-     (IF ctx.pn THEN {[c |-> "C08.noerror", p |-> ctx.M.path, sig |-> "panic"]} ELSE {})
+     (IF ctx.pn THEN {[c |-> "C08.noerror", p |-> ctx.M.path, sig |-> PanicSig(ctx.M, ctx.obj)]} ELSE {})
   \cup (IF ~ctx.pn /\ (HasError(ctx.dg1) \/ HasError(ctx.dg2)) THEN {VG("C08.noerror", ctx.M.path)} ELSE {})
   \cup (IF ctx.pn THEN {} ELSE UnknownIn(ctx.M, ctx.back) \cup C08Echo(ctx.M, ctx.plan, ctx.back))
 
 \* ctx: [M, s (struct decoded from the plan), s2 (struct decoded from the echoed plan), dg, pn]
 C08Redecode(ctx) ==
-  IF ctx.pn THEN {[c |-> "C08.noerror", p |-> ctx.M.path, sig |-> "panic"]}
+  IF ctx.pn THEN {[c |-> "C08.noerror", p |-> ctx.M.path, sig |-> PanicSigFrom(ctx.M, ctx.M.zero)]}
   ELSE (IF HasError(ctx.dg) THEN {VG("C08.noerror", ctx.M.path)} ELSE {})
        \cup RtDiff("C08.redecode", ctx.M, ctx.s, NF(ctx.M, MaskCustomGo(ctx.M, 1, ctx.s)), NF(ctx.M, MaskCustomGo(ctx.M, 1, ctx.s2)))
 
